@@ -29,7 +29,12 @@ func runC14(t *testing.T, cases []map[string]interface{}, ev *vEvents) {
 		case "bucket":
 			w := newWorld(vWorldOpts{CertCfg: []string{"password"}, WebUICfg: []string{"password"}})
 			burst, rps := vInt(c, "burst"), vInt(c, "rate")
-			w.st.passwordAttemptGlobalLimiter = rate.NewLimiter(rate.Limit(rps), burst)
+			// the limiter the configuration loader builds from the operator's two settings
+			limiter := func() *rate.Limiter {
+				return vConfiguredState(map[string]string{"password_attempt_global_burst_limit": fmt.Sprint(burst),
+					"password_attempt_global_rate_limit": fmt.Sprint(rps)}).passwordAttemptGlobalLimiter
+			}
+			w.st.passwordAttemptGlobalLimiter = limiter()
 			emit(map[string]interface{}{"ev": "Reset", "trace": ci})
 			t0 := time.Now()
 			ms := func() int { return int(time.Since(t0) / time.Millisecond) }
@@ -65,7 +70,7 @@ func runC14(t *testing.T, cases []map[string]interface{}, ev *vEvents) {
 			}
 			// concurrent: totals only (per-attempt attribution of backend calls is impossible)
 			time.Sleep(300 * time.Millisecond)
-			w.st.passwordAttemptGlobalLimiter = rate.NewLimiter(rate.Limit(rps), burst)
+			w.st.passwordAttemptGlobalLimiter = limiter()
 			callsBefore := atomic.LoadInt64(&w.pw.calls)
 			var non429 int64
 			var wg sync.WaitGroup
